@@ -7,4 +7,4 @@ Extraction "../ocaml/c09_model.ml" bz zb wallet_from_seed wallet_from_account_ke
   key_address key_wif key_wif_public key_is_private lib_path_expand lib_key_structure spec_path spec_purpose
   script_type_id spec_master spec_derive spec_derive_pub spec_neuter coin_of is_leaf leaf_len
   lib_keys_query lib_keys_addresses lib_keys_address_chain lib_addresslist_rows row_depth key_depth
-  spec_bip39_seed wallet_from_mnemonic.
+  spec_bip39_seed wallet_from_mnemonic set_lib_fixes.
